@@ -8,7 +8,8 @@ which only has well-formed core types).
 Transcribed arm by arm from `infer_expr_` / `check_expr_` / `check_block` / `infer_block` /
 `check_match` / `check_match_exhaustive` / `infer_call` / `infer_var` / `infer_binary_op` /
 `infer_int_binop` / `get_var_for_assignment` / `enum_payload_type` as they are in the tree the
-patches `checker-fix-toplevel-let-scope` and `checker-fix-match-non-enum` produce. Where the Rust
+patches `checker-fix-toplevel-let-scope`, `checker-fix-match-non-enum` and
+`checker-fix-novalue-scrutinee-payload` produce. Where the Rust
 gives up and returns `Error` / `Any` (thereby accepting), so does the model.
 
 * `exp = none`  : `infer_expr`;  `exp = some E` : `check_expr(E, ·)` (E may be `Any`, which is NOT
@@ -281,8 +282,10 @@ def exhaustive (scrutName : String) (caseNames : List String) : List Diag :=
     let (d, remaining, u) := exhaustLoop (variants.map (·.1)) false caseNames
     if u then d else if remaining.isEmpty then d else d ++ [.matchMissing]
 
-/-- `enum_payload_type` on the fragment. -/
+/-- `enum_payload_type` on the fragment (a `NoValue` scrutinee gives `NoValue` payloads:
+checker-fix-novalue-scrutinee-payload). -/
 def payloadTy (scrut : Ty) (variant : String) : Ty :=
+  if scrut.isNoValue then Ty.noValue else
   match scrut with
   | .user _ n args =>
     match enumVariants n with
